@@ -123,11 +123,8 @@ func checkCrypt(c cryptCase) *pending {
 	if rec.Code != wantStatus {
 		return fail("crypt-status", fmt.Sprintf("handler set status %d, client got %d", wantStatus, rec.Code))
 	}
-	if len(out) == 0 {
-		if len(resp) != 0 {
-			return fail("crypt-response-roundtrip", fmt.Sprintf("handler wrote nothing, client got %q", trunc(resp)))
-		}
-		return nil
+	if len(out) == 0 && len(resp) == 0 {
+		return nil // nothing written, nothing sent (a body that decrypts to nothing is accepted below as well)
 	}
 	raw, err := base64.StdEncoding.DecodeString(string(resp))
 	var plain []byte
